@@ -7,7 +7,7 @@ import re
 import struct
 from framework import REPO, ROOT
 
-TIE = ["Nsq.Tie.Proto"]
+TIE = ["Nsq.Tie.Proto", "Nsq.Tie.ProtoBase10"]
 PROPS = ["Nsq.Props.C09"]
 HARNESS = ["e3/infra_test.go", "e3/proto_test.go", "e3/http_test.go"]
 NAME_RE = re.compile(rb"^[.a-zA-Z0-9_-]+(#ephemeral)?$")
@@ -386,7 +386,8 @@ def ops_conf_line(ops, cid):
 def run(ctx):
     ctx.trusted += [
         "translator tools/go2lean (kinds errsites, stmts, consts, calls, regex): the regenerated facts are the "
-        "source text of the dispatch switch, the New(Fatal)ClientErr call sites and the guards",
+        "source text of the dispatch switch, the New(Fatal)ClientErr call sites and the guards; kind func: "
+        "ByteToBase10 translated to BitVec arithmetic and proved equal to the model (Tie.ProtoBase10.byteToBase10_eq)",
         "correspondence harness harness/e3 (in-memory net.Conn feeding tcpServer.Handle/IOLoop; frame parser; "
         "white-box broker snapshot; end of connection read off the error tcp.go logs)",
         "encoding/json (IDENTIFY body → identifyDataV2) is a parameter of the model (theorems hold for every "
@@ -413,6 +414,7 @@ def run(ctx):
                 "adds exactly its messages); limits on the implementation's own state after every op; exact "
                 "big-integer check of DPUB/RDY numbers; a concurrent well-behaved producer/consumer pair")
     gen_ok, _ = ctx.gen("e3_proto")
+    ctx.gen("e1_codec")   # the translated ByteToBase10 (kind func) for Nsq.Tie.ProtoBase10
     ok, log = ctx.lean_build(TIE + PROPS)
     if not ok:
         ctx.lean_obligation_failed("lake build " + " ".join(TIE + PROPS), log[-1500:])
